@@ -240,6 +240,37 @@ func c16SRVClass(ctx *vfCtx, who string, s c16SRVSpec) {
 	}
 }
 
+// c16OtherVerdict: the expectation under the opposite verdict on the well-known reply (honoured
+// <-> not honoured) and the signature that names that root cause.
+func c16OtherVerdict(c c16ResolveCase, srvD c16SRVSpec) (c16Expect, string, bool) {
+	if c.WK.Mode != "reply" {
+		return c16Expect{}, "", false
+	}
+	honoured, why := c16WKHonoured(c.WK)
+	other := c.WK
+	if honoured {
+		other = c16WKSpec{Mode: "neterr"}
+	} else {
+		other.Status, other.Pad, other.Size = 200, "", 0
+	}
+	if now, _ := c16WKHonoured(other); now == honoured {
+		return c16Expect{}, "", false
+	}
+	sig := "C16/resolve/well-known-ignored"
+	if !honoured {
+		sig = "C16/resolve/well-known-honoured/" + why
+		if why == "oversize" {
+			if c.WK.NoCL {
+				sig += "/no-content-length"
+			} else {
+				sig += "/content-length"
+			}
+			sig += "/pad-" + c.WK.Pad
+		}
+	}
+	return c16Resolve(c.Name, other, c.SRVOrig, srvD), sig, true
+}
+
 func c16ResolveCheck(ctx *vfCtx, c c16ResolveCase) {
 	n := c16ParseName(c.Name)
 	d := c16ParseName(c.WK.Delegate)
@@ -336,7 +367,13 @@ func c16ResolveCheck(ctx *vfCtx, c c16ResolveCase) {
 			ctx.Unjudged("invalid delegated name: error or fall-back to SRV both accepted")
 			return
 		}
-		ctx.Fail("C16/resolve/valid-refused/"+exp.Step, "ResolveServer(%q) fails for a valid name: %v", c.Name, err)
+		sig := "C16/resolve/valid-refused/" + exp.Step
+		if passesStep2 {
+			if other, stem, ok := c16OtherVerdict(c, srvD); ok && other.OrErr {
+				sig = stem
+			}
+		}
+		ctx.Fail(sig, "ResolveServer(%q) wk=%+v fails for a valid name: %v", c.Name, c.WK, err)
 		return
 	}
 	if len(exp.Alts) > 1 {
@@ -369,30 +406,21 @@ func c16ResolveCheck(ctx *vfCtx, c c16ResolveCase) {
 		sig := "C16/resolve/" + exp.Step + "/" + kind
 		// name the root cause when the result is exactly what the other verdict on the well-known
 		// reply would give
-		if passesStep2 && c.WK.Mode == "reply" {
-			honoured, why := c16WKHonoured(c.WK)
-			other := c.WK
-			if honoured {
-				other = c16WKSpec{Mode: "neterr"}
-			} else {
-				other.Status, other.Pad, other.Size = 200, "", 0
-			}
-			if nowHonoured, _ := c16WKHonoured(other); nowHonoured != honoured {
-				for _, alt := range c16Resolve(c.Name, other, c.SRVOrig, srvD).Alts {
-					if c16MatchTargets(got, alt) != "" {
-						continue
+		if exp.Step == "3-delegate-invalid" {
+			sig = "C16/resolve/invalid-delegate-accepted/" + c16InvalidShape(c.WK.Delegate)
+		}
+		if passesStep2 {
+			if other, stem, ok := c16OtherVerdict(c, srvD); ok {
+				for _, alt := range other.Alts {
+					if c16MatchTargets(got, alt) == "" {
+						sig = stem
 					}
-					if honoured {
-						sig = "C16/resolve/well-known-ignored"
-					} else {
-						sig = "C16/resolve/well-known-honoured/" + why
-						if why == "oversize" {
-							if c.WK.NoCL {
-								sig += "/no-content-length"
-							} else {
-								sig += "/content-length"
-							}
-							sig += "/pad-" + c.WK.Pad
+				}
+				// a target carrying the delegated name shows that a reply the model refuses was honoured
+				if honoured, _ := c16WKHonoured(c.WK); !honoured && c.WK.Delegate != "" && !strings.EqualFold(c.WK.Delegate, c.Name) {
+					for _, r := range got {
+						if string(r.Host) == c.WK.Delegate {
+							sig = stem
 						}
 					}
 				}
@@ -637,6 +665,6 @@ func c16WKCheck(ctx *vfCtx, c c16WKCase) {
 }
 
 func init() {
-	vfRapid("C16/resolve", c16ResolveRule, 1500, 40000, 8, c16ResolveGen, c16ResolveCheck)
-	vfRapid("C16/wellknown", c16WKRule, 1500, 40000, 8, c16WKGen, c16WKCheck)
+	vfRapid("C16/resolve", c16ResolveRule, 6000, 160000, 8, c16ResolveGen, c16ResolveCheck)
+	vfRapid("C16/wellknown", c16WKRule, 6000, 160000, 8, c16WKGen, c16WKCheck)
 }
